@@ -3,7 +3,6 @@ package c13
 import (
 	"fmt"
 	"math/rand/v2"
-	"os"
 	"sort"
 	"strings"
 
@@ -34,17 +33,6 @@ func schemas(variant int) []*m.Schema {
 }
 
 const checkName = "c_n_max" // CHECK (n < 100) on table c
-
-// concurrentDDLCommits (VERIF_C13_CONCURRENT_DDL=1, exploration only) lets DDL transactions
-// COMMIT while other sessions run. On the tree this was written against that exposes a
-// timing-dependent defect the oracle has no stable name for: Engine.NewTx takes the cached
-// catalog and only then seeds the MVCC read set from a snapshot that may already contain a
-// DDL commit whose invalidateCatalogCache has not run yet (it runs after AsyncCommit
-// returned), so a read-write transaction works on a catalog older than its snapshot and
-// still commits (CREATE INDEX of an index that exists, DROP CONSTRAINT failing with
-// "tbtree: key not found"). Reproducing it deterministically needs a hook point between
-// AsyncCommit and invalidateCatalogCache in SQLTx.Commit.
-var concurrentDDLCommits = os.Getenv("VERIF_C13_CONCURRENT_DDL") == "1"
 
 type gen struct {
 	ddl     bool // this case generates DDL inside transactions
@@ -355,6 +343,8 @@ func genProg(r *rand.Rand, sch []*m.Schema, tag string, sess int, multi, readOnl
 
 // ddlProg: DDL mixed with DML and queries in one explicit transaction (no savepoints), ending
 // in COMMIT less often than in ROLLBACK / Cancel so that the constraint stays in force for a while.
+// DDL transactions also COMMIT while other sessions run (a commit racing with another session's
+// BEGIN once left that session with a catalog older than its snapshot; repaired in /repo 582742e).
 func (g *gen) ddlProg(p *txProg, cs *m.Schema) *txProg {
 	r := g.r
 	p.BeginStmt = r.IntN(2) == 0
@@ -366,15 +356,6 @@ func (g *gen) ddlProg(p *txProg, cs *m.Schema) *txProg {
 		p.End = "rollback"
 	default:
 		p.End = "cancel"
-	}
-	if g.multi && !concurrentDDLCommits {
-		// While sessions run concurrently DDL is only ever rolled back or abandoned (what must
-		// not leak is exactly the uncommitted catalog change). A DDL commit that races with
-		// another session's BEGIN is a separate matter, see concurrentDDLCommits.
-		p.Script = false
-		if p.End == "commit" {
-			p.End = "rollback"
-		}
 	}
 	n := 2 + r.IntN(5)
 	ddlAt := r.IntN(n - 1)
